@@ -707,17 +707,9 @@ theorem s_callOffset {Q : Int → St → Prop} (hl : st.len ≤ e.n) (hp : st.po
   wp
   leaf_close h
 
-theorem s_discriminator {Q : Int → St → Prop} (hl : st.len ≤ e.n) (hp : st.pos ≤ e.n) (hs : Stop e st.len)
-    (h : ∀ r st', st'.len = st.len → st'.len ≤ e.n → st'.pos ≤ e.n → Stop e st'.len → exN st ≤ exN st' →
-      st.pos ≤ st'.pos → (0 ≤ r → st.pos < st'.pos) → Q r st') : Tri e st discriminator Q := by
-  unfold discriminator
-  wp
-  leaf_close h
-
 macro_rules | `(tactic| wp1) => `(tactic| first | (apply s_templateParam (by assumption) (by assumption) (by assumption); intros) | fail)
 macro_rules | `(tactic| wp1) => `(tactic| first | (apply s_functionParam (by assumption) (by assumption) (by assumption); intros) | fail)
 macro_rules | `(tactic| wp1) => `(tactic| first | (apply s_callOffset (by assumption) (by assumption) (by assumption); intros) | fail)
-macro_rules | `(tactic| wp1) => `(tactic| first | (apply s_discriminator (by assumption) (by assumption) (by assumption); intros) | fail)
 
 end leaf
 
@@ -1233,7 +1225,70 @@ theorem s_sourceName {st : St} {Q : Int → St → Prop} (hfx : e.fx = Fixes.all
 
 macro_rules | `(tactic| wp1) => `(tactic| first | (apply s_seqId (by assumption) (by assumption) (by assumption); intros) | fail)
 macro_rules | `(tactic| wp1) => `(tactic| first | (apply s_sourceName (by assumption) (by assumption) (by assumption) (by assumption); intros) | fail)
-attribute [local irreducible] seqId sourceName templateParam functionParam callOffset discriminator
+theorem s_getFixes {e : Env} {st : St} {Q : Fixes → St → Prop} (hfx : e.fx = Fixes.all) (h : Q Fixes.all st) :
+    Tri e st getFixes Q := by
+  apply tri_getFixes
+  rw [hfx]
+  exact h
+
+macro_rules | `(tactic| wp1) => `(tactic| first | (apply s_getFixes (by assumption); try simp only [Fixes.all, Bool.not_true, Bool.and_false, Bool.false_eq_true, ↓reduceIte, Bool.true_and, Bool.and_true, Bool.and_self]) | fail)
+
+theorem s_discriminator {st : St} {Q : Int → St → Prop} (hfx : e.fx = Fixes.all) (hl : st.len ≤ e.n) (hp : st.pos ≤ e.n)
+    (hs : Stop e st.len)
+    (h : ∀ r st', st'.len = st.len → st'.len ≤ e.n → st'.pos ≤ e.n → Stop e st'.len → exN st ≤ exN st' →
+      st.pos ≤ st'.pos → (0 ≤ r → st.pos < st'.pos) → Q r st') : Tri e st discriminator Q := by
+  unfold discriminator
+  wp
+  leaf_close h
+
+macro_rules | `(tactic| wp1) => `(tactic| first | (apply s_discriminator (by assumption) (by assumption) (by assumption) (by assumption); intros) | fail)
+
+theorem isLowHex_facts (c : UInt8) (h : isLowHex c = true) : c.toNat ≠ 0 ∧ c.toNat ≠ 46 ∧ c.toNat ≠ 64 ∧ c.toNat ≠ 69 ∧ c.toNat ≠ 95 := by
+  simp only [isLowHex, isXDigit, isDigit, isUpper, Bool.and_eq_true, Bool.or_eq_true, Bool.not_eq_true', decide_eq_true_eq,
+    decide_eq_false_iff_not, u8_le_iff, Bool.and_eq_false_iff] at h
+  have e1 : (48 : UInt8).toNat = 48 := rfl
+  have e2 : (57 : UInt8).toNat = 57 := rfl
+  have e3 : (65 : UInt8).toNat = 65 := rfl
+  have e4 : (70 : UInt8).toNat = 70 := rfl
+  have e5 : (97 : UInt8).toNat = 97 := rfl
+  have e6 : (102 : UInt8).toNat = 102 := rfl
+  have e7 : (90 : UInt8).toNat = 90 := rfl
+  omega
+
+/-- the F10k loop terminates: a lowercase hex digit is never the byte at `len` -/
+theorem t_hexSkip : ∀ (k : Nat) (st : St), st.len ≤ e.n → st.pos ≤ e.n → Stop e st.len → e.n + 1 ≤ k + st.pos →
+    Tri e st (hexSkip k) (fun _ st' => st'.len = st.len ∧ st'.pos ≤ e.n ∧ exN st' = exN st ∧ st.pos ≤ st'.pos) := by
+  intro k
+  induction k with
+  | zero => intro st hl hp hs hk; omega
+  | succ k ih =>
+    intro st hl hp hs hk
+    unfold hexSkip
+    apply tri_bind
+    apply s_curr hl hs
+    intro c hc hc2
+    apply tri_ite
+    · intro hal
+      have h3 := isLowHex_facts c hal
+      apply tri_bind
+      apply s_consume hl hp hs
+      · intro c' st' h1 h2 h3' h4 h5 h6 h7 h8
+        omega
+      · intro c' st' h1 h2 h3' h4 h5 h6 h7 h8
+        refine tri_mono (ih st' h2 h3' h4 (by omega)) ?_
+        intro _ st'' ⟨a, b, c, d⟩
+        exact ⟨by omega, b, by omega, by omega⟩
+    · intro _
+      exact tri_pure ⟨rfl, hp, rfl, Nat.le_refl _⟩
+
+theorem s_hexSkip {st : St} {Q : Unit → St → Prop} (hl : st.len ≤ e.n) (hp : st.pos ≤ e.n) (hs : Stop e st.len)
+    (h : ∀ r st', st'.len = st.len → st'.len ≤ e.n → st'.pos ≤ e.n → Stop e st'.len → exN st ≤ exN st' →
+      st.pos ≤ st'.pos → Q r st') : Tri e st (hexSkip (e.n + 1)) Q := by
+  refine tri_mono (t_hexSkip _ st hl hp hs (by omega)) ?_
+  intro r st' ⟨h1, h2, h3, h4⟩
+  exact h r st' h1 (by omega) h2 (by rw [h1]; exact hs) (by omega) h4
+
+attribute [local irreducible] seqId sourceName templateParam functionParam callOffset discriminator hexSkip
 
 theorem s_abiTag {st : St} {Q : Int → St → Prop} (hfx : e.fx = Fixes.all) (hl : st.len ≤ e.n) (hp : st.pos ≤ e.n)
     (hs : Stop e st.len)
